@@ -1169,13 +1169,16 @@ fn main() {
     let Mode::Supervisor(mut c) = start("C13", "exploration", build) else { return };
     let k = c.tier.pick(2, 3);
     c.rule = format!(
-        "m2: every model within <= {k} site deviations of the all-empty and of the all-populated baseline ({} sites, 3-5 population levels each: empty/one/three, names none/short/255 chars, textures unnamed/named, float pool ±0,1,-1.5,MAX,MIN_POSITIVE,±inf,subnormal) x 8 header numbers (5 versions + 257, 263, 271) x {} rotation(s) of the float pool over the fields; m2conv: every model within <= {} deviations x all 25 (from,to) pairs x 2 entry points (thorough: x 2 float rotations, and the converted object must be a fixed point of write→parse→write); seed: byte-level MD20 files carrying {} key frames in {} records for every subset of <= {} of the 11 animated sections (+ all eleven) x variant {{plain, shared timestamp arrays, key-less tracks with non-default header}} x {} header numbers, each also converted to all 5 versions; share: dense byte-level seeds (every animated value keyed) in which animated values point at the SAME array: 10 sharing patterns (two/all values of one record, same value of the next / third / all records, other value of the next record, every value of every record, two separate groups, second record only) x shared kind {{ranges, timestamps, values, ranges+timestamps, all three}} x 10 animated sections singly + all ten at once{} x {} header numbers x keys {} x records {} x extent {}; skin: {}; anim: full product format x sections x bones x track mask x keys{}.{} A case is non-trivial when at least one section is populated (share: at least one array really points at an earlier one); distinct by its axis tuple.",
+        "m2: every model within <= {k} site deviations of the all-empty and of the all-populated baseline ({} sites, 3-5 population levels each: empty/one/three, names none/short/255 chars, textures unnamed/named, float pool ±0,1,-1.5,MAX,MIN_POSITIVE,±inf,subnormal) x 8 header numbers (5 versions + 257, 263, 271) x {} rotation(s) of the float pool over the fields; m2conv: every model within <= {} deviations x all 25 (from,to) pairs x 2 entry points (thorough: x 2 float rotations, and the converted object must be a fixed point of write→parse→write); seed: byte-level MD20 files carrying {} key frames in {} records for every subset of <= {} of the 11 animated sections (+ all eleven) x variant {{plain, shared timestamp arrays, key-less tracks with non-default header}} x {} header numbers, each also converted to all 5 versions; second block of seed: sections with key-less records NEXT TO sections that carry key frames: every ordered pair (key-less section, keyed section) of the 11 animated sections + each section keyed alone among ten key-less ones{} x {} x {} header numbers; share: dense byte-level seeds (every animated value keyed) in which animated values point at the SAME array: 10 sharing patterns (two/all values of one record, same value of the next / third / all records, other value of the next record, every value of every record, two separate groups, second record only) x shared kind {{ranges, timestamps, values, ranges+timestamps, all three}} x 10 animated sections singly + all ten at once{} x {} header numbers x keys {} x records {} x extent {}; skin: {}; anim: full product format x sections x bones x track mask x keys{}.{} A case is non-trivial when at least one section is populated (share: at least one array really points at an earlier one); distinct by its axis tuple.",
         gen::SITES.len(),
         c.tier.pick(1, 3),
         c.tier.pick(1, 2),
         c.tier.pick("1 or 3 (or no)", "0, 1, 2, 3 or 8"),
         c.tier.pick("1 or 3", "1, 2, 3 or 5"),
         c.tier.pick(2, 4),
+        c.tier.pick(5, 8),
+        c.tier.pick("", " + each section key-less alone among ten keyed ones"),
+        c.tier.pick("(1 key-less + 1 keyed record with 1 key | 3 + 3 records with 3 keys)", "key-less records {1,3,5} x keyed records {1,3} x keys {1,3}"),
         c.tier.pick(5, 8),
         c.tier.pick("", " + each singly next to the nine others populated without sharing"),
         c.tier.pick(5, 8),
@@ -1204,7 +1207,7 @@ fn main() {
     c.extra_cov.insert(
         "axes".into(),
         json!({"versions": 5, "m2_sites": gen::SITES.len(), "m2_levels_per_site": sites, "m2_max_deviations": k, "conversion_pairs": 25, "conversion_entry_points": 2,
-               "seed_tracked_sections": emit::TRACKED.len(), "seed_records": [1, 3], "seed_keys": [0, 1, 3], "seed_variants": emit::VARIANTS, "m2_header_numbers": 8,
+               "seed_tracked_sections": emit::TRACKED.len(), "seed_keyless_next_to_keyed_section_sets": c.tier.pick(121, 132), "seed_records": [1, 3], "seed_keys": [0, 1, 3], "seed_variants": emit::VARIANTS, "m2_header_numbers": 8,
                "skin_layouts": skinfile::LAYOUTS.len(), "skin_sections": 5, "skin_levels": 3, "anim_formats": 2,
                "share_patterns": share::PATTERNS, "share_kinds": share::KINDS.iter().map(|k| k.0).collect::<Vec<_>>(), "share_sections": share::SECTIONS, "share_extents": share::EXTENTS}),
     );
